@@ -16,6 +16,77 @@ thread_local! {
     static LEDGER: RefCell<Vec<(u8, u64)>> = RefCell::new(Vec::new());
     /// live heap bytes of this thread, maintained by the counting allocator of the check binary
     pub static LIVE_BYTES: Cell<isize> = const { Cell::new(0) };
+    /// while set, the allocator of the check binary records the layout of every allocation of this thread ...
+    pub static ALLOC_TRACK: Cell<bool> = const { Cell::new(false) };
+    /// ... in this table (pointer, size, align; pointer 0 = free slot) ...
+    pub static ALLOC_TABLE: RefCell<[(usize, usize, usize); 1024]> = const { RefCell::new([(0, 0, 0); 1024]) };
+    /// ... and the first deallocation / reallocation whose layout differs from the recorded one: (alloc size, alloc align,
+    /// free size, free align)
+    pub static ALLOC_MISMATCH: Cell<(usize, usize, usize, usize)> = const { Cell::new((0, 0, 0, 0)) };
+}
+
+/// called by the global allocator of the check binary (no allocation may happen in here)
+pub fn track_alloc(p: usize, size: usize, align: usize) {
+    let on = ALLOC_TRACK.try_with(|t| t.get()).unwrap_or(false);
+    if !on || p == 0 {
+        return;
+    }
+    let _ = ALLOC_TABLE.try_with(|t| {
+        if let Ok(mut t) = t.try_borrow_mut() {
+            let n = t.len();
+            let start = (p >> 4) % n;
+            for k in 0..n {
+                let i = (start + k) % n;
+                if t[i].0 == 0 {
+                    t[i] = (p, size, align);
+                    return;
+                }
+            }
+        }
+    });
+}
+
+pub fn track_dealloc(p: usize, size: usize, align: usize) {
+    let on = ALLOC_TRACK.try_with(|t| t.get()).unwrap_or(false);
+    if !on {
+        return;
+    }
+    let _ = ALLOC_TABLE.try_with(|t| {
+        if let Ok(mut t) = t.try_borrow_mut() {
+            let n = t.len();
+            let start = (p >> 4) % n;
+            for k in 0..n {
+                let i = (start + k) % n;
+                if t[i].0 == p {
+                    if (t[i].1, t[i].2) != (size, align) {
+                        let _ = ALLOC_MISMATCH.try_with(|m| {
+                            if m.get() == (0, 0, 0, 0) {
+                                m.set((t[i].1, t[i].2, size, align));
+                            }
+                        });
+                    }
+                    t[i] = (0, 0, 0);
+                    return;
+                }
+            }
+        }
+    });
+}
+
+fn track_begin() {
+    ALLOC_TABLE.with(|t| *t.borrow_mut() = [(0, 0, 0); 1024]);
+    ALLOC_MISMATCH.with(|m| m.set((0, 0, 0, 0)));
+    ALLOC_TRACK.with(|t| t.set(true));
+}
+
+fn track_end() -> Option<String> {
+    ALLOC_TRACK.with(|t| t.set(false));
+    let m = ALLOC_MISMATCH.with(|m| m.get());
+    if m != (0, 0, 0, 0) {
+        Some(format!("allocator layout: memory allocated as (size {}, align {}) was freed as (size {}, align {})", m.0, m.1, m.2, m.3))
+    } else {
+        None
+    }
 }
 
 fn ledger_take() -> Vec<(u8, u64)> {
@@ -59,6 +130,13 @@ tracked!(Z2, 7, (), |_i: u64| (), |_r: &()| 0u64);
 tracked!(Heap, 8, Box<u64>, |i: u64| Box::new(i), |r: &Box<u64>| **r);
 tracked!(Heap2, 9, Box<u64>, |i: u64| Box::new(i), |r: &Box<u64>| **r);
 
+/// same size, very different alignment: buffers must not be reused between these two
+tracked!(Bytes64, 10, [u8; 64], |i: u64| { let mut b = [0u8; 64]; b[..8].copy_from_slice(&i.to_le_bytes()); b }, |r: &[u8; 64]| u64::from_le_bytes([r[0], r[1], r[2], r[3], r[4], r[5], r[6], r[7]]));
+#[derive(Debug)]
+#[repr(align(64))]
+pub struct OverRepr(pub [u8; 64]);
+tracked!(Over, 11, OverRepr, |i: u64| { let mut b = [0u8; 64]; b[..8].copy_from_slice(&i.to_le_bytes()); OverRepr(b) }, |r: &OverRepr| u64::from_le_bytes([r.0[0], r.0[1], r.0[2], r.0[3], r.0[4], r.0[5], r.0[6], r.0[7]]));
+
 #[derive(Clone, Copy, Debug, PartialEq, Eq, Serialize, Deserialize)]
 pub enum Mode {
     Ok,
@@ -75,7 +153,7 @@ pub struct Case {
     pub mode: Mode,
 }
 
-const PAIR_NAMES: [&str; 12] = ["vec A(u64)->B(u64) same layout", "vec A(u64)->Big([u64;2]) size differs", "vec Bytes([u8;8])->A(u64) alignment differs", "vec Small(u8)->A(u64)", "vec ZST->ZST", "vec ZST->A(u64)", "vec Heap(Box)->Heap2(Box) same layout, owning", "box A->B same layout", "box A->Big", "box Heap->Heap2", "Vec<T>: TypeFoldable (public route)", "Box<T>: TypeFoldable (public route)"];
+const PAIR_NAMES: [&str; 14] = ["vec A(u64)->B(u64) same layout", "vec A(u64)->Big([u64;2]) size differs", "vec Bytes([u8;8])->A(u64) alignment differs", "vec Small(u8)->A(u64)", "vec ZST->ZST", "vec ZST->A(u64)", "vec Heap(Box)->Heap2(Box) same layout, owning", "box A->B same layout", "box A->Big", "box Heap->Heap2", "Vec<T>: TypeFoldable (public route)", "Box<T>: TypeFoldable (public route)", "vec [u8;64] -> align(64) [u8;64] (same size, alignment 1 -> 64)", "vec align(64) [u8;64] -> [u8;64] (same size, alignment 64 -> 1)"];
 
 /// expected drop multiset / order independent check. Returns problems.
 fn check_ledger(events: &[(u8, u64)], expected: &[(u8, u64)], zst: bool) -> Option<String> {
@@ -95,6 +173,7 @@ fn run_vec<T, U>(len: usize, fail_at: Option<usize>, mode: Mode, tt: u8, tu: u8,
     let mut problems = vec![];
     let base = live();
     let _ = ledger_take();
+    track_begin();
     {
         let input: Vec<T> = (0..len as u64).map(&mk).collect();
         let calls = Cell::new(0usize);
@@ -118,6 +197,9 @@ fn run_vec<T, U>(len: usize, fail_at: Option<usize>, mode: Mode, tt: u8, tu: u8,
                 let during = ledger_take();
                 if !during.is_empty() {
                     problems.push(format!("success but elements were dropped: {:?}", during));
+                }
+                if std::mem::size_of::<U>() > 0 && out.capacity() > 0 && (out.as_ptr() as usize) % std::mem::align_of::<U>() != 0 {
+                    problems.push(format!("allocator layout: the output buffer {:p} is not aligned to {} bytes", out.as_ptr(), std::mem::align_of::<U>()));
                 }
                 if out.len() != len {
                     problems.push(format!("output has {} elements, input had {}", out.len(), len));
@@ -158,6 +240,9 @@ fn run_vec<T, U>(len: usize, fail_at: Option<usize>, mode: Mode, tt: u8, tu: u8,
         }
     }
     let _ = ledger_take();
+    if let Some(pb) = track_end() {
+        problems.push(pb);
+    }
     let after = live();
     if after != base {
         problems.push(format!("heap accounting: {} bytes live before, {} after (leak or double free)", base, after));
@@ -317,6 +402,8 @@ pub fn run_case(c: &Case) -> Vec<String> {
         7 => run_box(f.is_some(), m, 1, 2, A::new, |t: A| { let id = t.id(); std::mem::forget(t); B::new(id) }, |u: &B| u.id()),
         8 => run_box(f.is_some(), m, 1, 3, A::new, |t: A| { let id = t.id(); std::mem::forget(t); Big::new(id) }, |u: &Big| u.id()),
         9 => run_box(f.is_some(), m, 8, 9, Heap::new, |t: Heap| { let id = t.id(); drop_silently(t); Heap2::new(id) }, |u: &Heap2| u.id()),
+        12 => run_vec(len, f, m, 10, 11, Bytes64::new, |t: Bytes64| { let id = t.id(); std::mem::forget(t); Over::new(id) }, |u: &Over| u.id(), false),
+        13 => run_vec(len, f, m, 11, 10, Over::new, |t: Over| { let id = t.id(); std::mem::forget(t); Bytes64::new(id) }, |u: &Bytes64| u.id(), false),
         10 => run_public(len, f, m, false),
         _ => run_public(1, f.map(|_| 0), m, true),
     }
@@ -330,7 +417,9 @@ fn drop_silently(t: Heap) {
 }
 
 fn sig_of(problem: &str) -> &'static str {
-    if problem.contains("heap accounting") {
+    if problem.contains("allocator layout") {
+        "buffer-reused-across-layouts"
+    } else if problem.contains("heap accounting") {
         "leak-or-double-free"
     } else if problem.contains("success but") {
         "dropped-on-success"
@@ -382,7 +471,7 @@ impl Property for C27 {
         true
     }
     fn rule(&self) -> String {
-        "fixed part (exhaustive): vector length 0..=12 x failing position 0..len or none x mode {ok, Err return, panic} x element pairs {same layout, size differs, alignment differs, u8->u64, ZST->ZST, ZST->non-ZST, owning Box payload} for fallible_map_vec; box x {fail, no fail} x mode x {same layout, size differs, owning}; plus the public route Vec<T>/Box<T>: TypeFoldable with a drop-tracking element and a folder that fails at the k-th call. Random part: the same with lengths up to 200. Oracle: a drop ledger (on failure the mapped prefix is dropped as U, the element handed to the closure by the closure, the unmapped suffix as T — each exactly once; on success nothing is dropped and the output holds all ids in order) + a counting allocator (live heap bytes return to the baseline; elements owning a Box turn a leak into a byte imbalance and a double drop into a double free). Non-trivial = failure strictly inside (0 < pos < len-1) with non-ZST elements; distinct by (pair, len, position, mode).".into()
+        "fixed part (exhaustive): vector length 0..=12 x failing position 0..len or none x mode {ok, Err return, panic} x element pairs {same layout, size differs, alignment differs (8-byte and 64-byte over-aligned, both directions), u8->u64, ZST->ZST, ZST->non-ZST, owning Box payload} for fallible_map_vec; box x {fail, no fail} x mode x {same layout, size differs, owning}; plus the public route Vec<T>/Box<T>: TypeFoldable with a drop-tracking element and a folder that fails at the k-th call. Random part: the same with lengths up to 200. Oracle: a drop ledger (on failure the mapped prefix is dropped as U, the element handed to the closure by the closure, the unmapped suffix as T — each exactly once; on success nothing is dropped and the output holds all ids in order) + a counting allocator (live heap bytes return to the baseline; elements owning a Box turn a leak into a byte imbalance and a double drop into a double free) that also records the layout of every allocation made during a case (memory must be freed with the layout it was allocated with, and the output buffer must be aligned for its element type — so a buffer reused between types of different layout is seen). Non-trivial = failure strictly inside (0 < pos < len-1) with non-ZST elements; distinct by (pair, len, position, mode).".into()
     }
     fn assumptions(&self) -> Vec<String> {
         vec!["the private in-place functions are reached through the cfg(chalk_verif) hook chalk_ir::fold::verif_in_place; reads of freed/uninitialised memory are only visible through their effects (ledger ids, allocator imbalance, crash) unless the thorough tier's Miri run is used".into()]
@@ -394,7 +483,7 @@ impl Property for C27 {
         16
     }
     fn decode(&self, t: &mut Tape, _tier: Tier) -> Case {
-        let pair = t.choose(12) as u8;
+        let pair = t.choose(14) as u8;
         let len = 13 + t.choose(188);
         let mode = [Mode::Ok, Mode::Err, Mode::Panic][t.choose(3)];
         let fail_at = if t.chance(85) { Some(t.choose(len)) } else { None };
@@ -424,7 +513,7 @@ impl Property for C27 {
     }
     fn fixed_part(&self, _tier: Tier) -> Option<CaseOut> {
         let mut out = CaseOut::default();
-        for pair in 0..12u8 {
+        for pair in 0..14u8 {
             let is_box = matches!(pair, 7 | 8 | 9 | 11);
             let lens: Vec<usize> = if is_box { vec![1] } else { (0..=12).collect() };
             for len in lens {
